@@ -10,8 +10,14 @@ META = {
                    'left unsent at the end. Consumer side: Start over N producers and every arrival interleaving of '
                    'their batches: the elements of each producer come out completely, once, in order. TCP framing: '
                    'remote_send followed by remote_recv over one byte stream (several messages back to back) returns the '
-                   'same message for the same receiver endpoint and leaves the stream aligned.',
+                   'same message for the same receiver endpoint and leaves the stream aligned. The loops of the multiplexer '
+                   'and demultiplexer threads (mux_thread, demux_thread) executed over a scripted queue / connection: every '
+                   'message goes to exactly the recipient it is addressed to, completely, once, in order per recipient, also '
+                   'when a recipient queue refuses timed or non-blocking sends. Connection set-up, the threads themselves '
+                   'and TCP are not covered.',
     'assumptions': ['flume channels are FIFO and lossless', 'TCP is a reliable byte stream',
+                    'stubs in the mux / demux harnesses: remote_recv / remote_send (scripted; the real ones are decided by the '
+                    'framing tasks), TcpStream (peer_addr, shutdown, flush), the recipients\' flume senders',
                     'bincode is an injective encoding whose serialized_size agrees with serialize_into; messages < 4 GiB'],
     'trusted': ['mirsym MIR executor and its std model table', 'z3 / cvc5'],
 }
@@ -301,4 +307,89 @@ def TASKS(tier):     # noqa: F811
                        bounds='demux_thread over a connection carrying %d messages addressed to any of %d local recipients '
                               '(remote_recv stubbed: the framing is decided separately); recipient queues may refuse any '
                               'non-blocking / timed send' % (nm, ne), role='demux', opts={'covers': ['several_to_one']}))
+    return ts
+
+
+# ------------------------------------------------------------------------------------ multiplexer loop
+
+class ScriptedRx(PyObj):
+    """channel::Receiver the multiplexer thread reads from: the local senders' (dest, message) pairs, then closed"""
+    name = 'Receiver'
+
+    def __init__(self, items):
+        self.items = list(items)
+
+    def trait_call(self, ex, trait, method, args):
+        if method in ('recv', 'recv_timeout'):
+            if self.items:
+                return ok(self.items.pop(0))
+            return err(Enum('channel::RecvError', 'Disconnected', 0, []) if method == 'recv' else
+                       Enum('channel::RecvTimeoutError', 'Disconnected', 1, []))
+        if method == 'try_recv':
+            if self.items and ex.choose(2, 'message already queued') == 0:
+                return ok(self.items.pop(0))
+            return err(Enum('channel::TryRecvError', 'Empty' if self.items else 'Disconnected', 0 if self.items else 1, []))
+        raise Unsupported('ScriptedRx %s' % method)
+
+
+def mux_harness(w, n_endpoints, nmsgs):
+    """mux_thread: what the local senders queued goes onto the connection completely, once, in queue order, each
+    message with its own destination (remote_send: decided under `framing`)"""
+    fs = [f for f in w.prog.functions if f.name.endswith('mux_thread') and 'demux' not in f.name and 'closure' not in f.name]
+    if len(fs) != 1:
+        raise Unsupported('mux_thread not found')
+    mux = fs[0]
+    new_batch = w.impls[(None, 'NetworkMessage')]['new_batch'][0]
+    hlib.check_se_table(w)
+
+    def h(ex):
+        dests = [ex.choose(n_endpoints, 'dest of message %d' % j) if n_endpoints > 1 else 0 for j in range(nmsgs)]
+        want = ['%d:%d' % (d, j + 1) for j, d in enumerate(dests)]
+        if ex.env.get('native'):
+            runner, prof = ex.env['native']
+            ex.env['native_used'] = True
+            txt = runner('mux', [n_endpoints, nmsgs] + dests, timeout=60)[prof]
+            ex.env['native_out'] = txt
+            if txt == 'PANIC' or txt.startswith(('BADARGS', 'UNKNOWN', 'NORESULT')):
+                raise Unsupported('native driver: ' + txt)
+            got = [t for t in txt.split() if t != '-']
+        else:
+            items = []
+            for j in range(nmsgs):
+                ep = hlib.mk_struct(w, 'ReceiverEndpoint', coord=hlib.coord(w, 2, 0, dests[j]), prev_block_id=Int('u64', 1))
+                m = ex.call_function(new_batch, [VecModel([hlib.se('Item', Int('u64', j + 1))]), hlib.coord(w, 1, 0, 0)])
+                items.append(Agg('tuple', None, [ep, m]))
+            wire = []
+
+            def fake_remote_send(ex, c, a):
+                msg, dest = deref(a[0]), deref(a[1])
+                data = msg.get('data')
+                els = data.fields[0].items if isinstance(data, Enum) else data.items
+                wire.append('%d:%s' % (dest.get('coord').get('replica_id').v,
+                                       '+'.join(str(e.fields[0].v) for e in els if e.variant == 'Item')))
+                return hlib.unit()
+            ex.env['fn_overrides'] = {'remote_send': fake_remote_send}
+            coord = hlib.mk_struct(w, 'DemuxCoord', coord=hlib.mk_struct(w, 'BlockCoord', block_id=Int('u64', 2), host_id=Int('u64', 0)),
+                                   prev_block_id=Int('u64', 1))
+            rx = Agg('struct', 'channel::Receiver', [ScriptedRx(items)], ['0'])
+            ex.call_function(mux, [coord, rx, TcpStub()])
+            got = wire
+        if got != want:
+            raise Violation('the multiplexer put %s on the connection, the local senders queued %s' % (got, want),
+                            hlib._wit(ex), {'dests': dests, 'wire': got})
+        hlib.cover(ex, 'sent')
+        return {'dests': dests, 'wire': got}
+    return h
+
+
+_demux_tasks = TASKS
+
+
+def TASKS(tier):     # noqa: F811
+    ts = _demux_tasks(tier)
+    for ne, nm in ([(2, 3)] if tier == 'quick' else [(2, 4), (3, 3)]):
+        ts.append(Task('mux_%de_%dm' % (ne, nm), 'mux_harness', {'n_endpoints': ne, 'nmsgs': nm},
+                       bounds='mux_thread draining a queue of %d messages for any of %d remote recipients onto one connection '
+                              '(remote_send stubbed: the framing is decided separately)' % (nm, ne), role='mux',
+                       opts={'covers': ['sent']}))
     return ts
